@@ -144,6 +144,7 @@ class SocksStore(core.ConfigStore):
         core.ConfigStore.__init__(self, OPTIONS, values, {})
         self.validators = [self._check_ports]
         self.rejected = []
+        self.apply_log = []
 
     def _check_ports(self, staged):
         for name in SOCKS_FAMILY + ("DNSPort", "__DNSPort", "TransPort", "__TransPort"):
@@ -155,7 +156,10 @@ class SocksStore(core.ConfigStore):
 
     def apply(self, items, reset=False):
         before = len(self.history)
+        had = self.socks_entries()
         err = core.ConfigStore.apply(self, items, reset)
+        # what Tor had at the moment it processed this SETCONF, what was asked, what came of it
+        self.apply_log.append({"before": had, "items": list(items), "err": err})
         if err is None and len(self.history) > before:
             named = set(self.canon(k) for k, _ in items)
             if named & set(SOCKS_FAMILY):
